@@ -171,3 +171,343 @@ Print Assumptions C15_serial_clark_scarf_all_t.
 Print Assumptions C15_serial_shipments.
 Print Assumptions C15_serial_reference.
 Print Assumptions C15_cs_closed_form.
+
+(* ==== integrated from serialexp ==== *)
+(* C15 (and the C07 bridge) -- additions for Props/C15.v: the EXPECTED period cost of the simulated serial system equals the SSM
+   expected cost of the echelon level vector.  Statements only; proofs in SerialCost_proofs.v (step 1), SerialPath_proofs.v,
+   SerialLaw_proofs.v, SerialSSM_proofs.v, SerialExp_proofs.v; definitions in SerialExp.v.
+   Network: [NWloc h p order stages] of Sim/Serial.v (local base-stock levels, stages listed upstream -> downstream as
+   (index, local level, shipment lead time), node list [order] in any order, holding rates h, stockout rates p, default
+   in-transit holding rate, no revenue, order lead times 0).  Demand: i.i.d. at the sink, P(D = off + i) = nth i pm 0. *)
+From Coq Require Import Permutation Morphisms.
+From SV Require Import Base.Qx Alg.Gen Sim.Model Sim.Serial Sim.CS Sim.CS_run Sim.NVExpect.
+From SV Require Alg.SSM.
+From SV Require Import Sim.SerialExp Sim.SerialCost_proofs Sim.SerialLaw_proofs Sim.SerialSSM_proofs Sim.SerialPath_proofs Sim.SerialExp_proofs.
+
+(* Step 1 (pathwise, every demand sequence, EVERY period): the local -> echelon rewriting of what the simulator charges.
+   total cost of period t = sum_n (h_n - h_{supplier of n}) * IL^e_n(t) + (h_sink + p_sink) * (IL_sink(t))^- + sum_{n not sink} p_n (IL_n(t))^-
+   IL^e_n = echelon_il = echelon inventory LEVEL (on hand at n and below + in transit below n - sink backorders; NOT what is in
+   transit to n).  The simulator's default in-transit rate (the supplier's local rate) is the SSM convention: no correction term. *)
+Theorem C15_serial_cost_identity : forall h p order stages,
+  stages <> [] -> NoDup (map sidx stages) -> Permutation order (map sidx stages) -> Forall (fun x => 0 <= slev x) stages ->
+  forall inputs, inputs_ok stages inputs -> forall t, (t < length inputs)%nat ->
+  let NW := NWloc h p order stages in let e := nth t (run NW inputs) empty_st in
+  net_period_cost NW e
+  == ech_cost h (fun n => echelon_il NW e n) 0 (map sidx stages)
+     + (h (sinkn (map sidx stages)) + p (sinkn (map sidx stages))) * negp (gq e (fIL, sinkn (map sidx stages), Ext))
+     + interior_stockout p (fun n => gq e (fIL, n, Ext)) (map sidx stages).
+Proof. exact serial_cost_identity. Qed.
+
+(* the period cost as a function of the demand history only (stockout cost at the sink only), EVERY period:
+   sum_j h^e_j IL^e_j(t) + (p + sum_j h^e_j) (IL^e_1(t))^-  with IL^e given by the Clark-Scarf recursion [eils] *)
+Theorem C15_serial_period_cost_pathwise : forall h p order stages,
+  stages <> [] -> NoDup (map sidx stages) -> Permutation order (map sidx stages) -> Forall (fun x => 0 <= slev x) stages ->
+  Forall (fun n => p n == 0) (removelast (map sidx stages)) ->
+  forall off pm, (Z.of_nat (off + length pm) <= 10 ^ 100)%Z ->
+  forall pH t ds, pH == p (sinkn (map sidx stages)) + h (sinkn (map sidx stages)) -> (t < length ds)%nat -> Forall (in_supp off pm) ds ->
+  serial_period_cost h p order stages t ds == pure_cost pH (dq ds) (List.rev (cst h 0 stages)) t.
+Proof. exact serial_period_cost_pathwise. Qed.
+
+(* the law of an echelon inventory level: nested sums over INDEPENDENT lead-time demands (disjoint windows of the demand vector),
+   for every period tau >= the sum of the lead times from the stage up to the head *)
+Theorem C15_serial_law_of_echelon_level : forall off pm, qsum pm == 1 ->
+  forall rst, rst <> [] -> forall phi, Proper (Qeq ==> Qeq) phi -> forall T tau, (leadsum rst <= tau)%nat -> (tau < T)%nat ->
+  expect_list T off pm (fun ds => phi (eils (dq ds) rst (S tau))) == elaw off pm rst phi.
+Proof. exact expect_eils. Qed.
+
+(* Step 2: E[cost of period t] (product law of the T demands) = the exact nested sum [hcost], for L_1 + ... + L_N <= t < T *)
+Theorem C15_serial_expected_cost_nested : forall h p order stages,
+  stages <> [] -> NoDup (map sidx stages) -> Permutation order (map sidx stages) -> Forall (fun x => 0 <= slev x) stages ->
+  Forall (fun n => p n == 0) (removelast (map sidx stages)) ->
+  forall off pm, qsum pm == 1 -> (Z.of_nat (off + length pm) <= 10 ^ 100)%Z ->
+  forall pH t T, pH == p (sinkn (map sidx stages)) + h (sinkn (map sidx stages)) ->
+  (list_sum (map sslt stages) <= t)%nat -> (t < T)%nat ->
+  expect_list T off pm (serial_period_cost h p order stages t) == hcost off pm pH (cst h 0 stages) None.
+Proof. exact serial_expected_cost_nested. Qed.
+
+(* ... = the top-down expected cost of Alg/SSM.v (C07) at the echelon levels (integer local levels), echelon holding rates
+   h_j - h_{j+1}, stockout rate p, lead-time-demand tables = L_j-fold convolutions *)
+Theorem C15_serial_expected_cost_topdown : forall h p order (zs : list zsim),
+  zs <> [] -> NoDup (map sidx (map zsim_stage zs)) -> Permutation order (map sidx (map zsim_stage zs)) ->
+  Forall (fun x : zsim => (0 <= snd (fst x))%Z) zs -> Forall (fun n => p n == 0) (removelast (map sidx (map zsim_stage zs))) ->
+  forall off pm, qsum pm == 1 -> (Z.of_nat (off + length pm) <= 10 ^ 100)%Z ->
+  forall t T, (list_sum (map sslt (map zsim_stage zs)) <= t)%nat -> (t < T)%nat ->
+  expect_list T off pm (serial_period_cost h p order (map zsim_stage zs) t)
+  == SSM.topdown (p (sinkn (map sidx (map zsim_stage zs)))) (qsum (map SSM.sg_h (ssm_stages_of off pm h zs)))
+       (List.rev (combine (ssm_stages_of off pm h zs) (ssm_levels_of h zs))) None.
+Proof. exact serial_expected_cost_topdown. Qed.
+
+(* ... = the cost the model of stockpyl.ssm_serial (evaluation mode) reports for these echelon levels, on its grid *)
+Theorem C15_serial_expected_cost_is_ssm_cost : forall h p order (zs : list zsim),
+  zs <> [] -> NoDup (map sidx (map zsim_stage zs)) -> Permutation order (map sidx (map zsim_stage zs)) ->
+  Forall (fun x : zsim => (0 <= snd (fst x))%Z) zs -> Forall (fun n => p n == 0) (removelast (map sidx (map zsim_stage zs))) ->
+  forall off pm, qsum pm == 1 -> (Z.of_nat (off + length pm) <= 10 ^ 100)%Z ->
+  forall xlo xnum xext mu t T,
+  SSM.exact_instance xlo xext mu (ssm_stages_of off pm h zs) ->
+  Forall (fun l => (xlo <= l <= SSM.xhi xlo xnum)%Z) (ssm_levels_of h zs) ->
+  (list_sum (map sslt (map zsim_stage zs)) <= t)%nat -> (t < T)%nat ->
+  expect_list T off pm (serial_period_cost h p order (map zsim_stage zs) t)
+  == SSM.ssm_cost xlo xnum xext (p (sinkn (map sidx (map zsim_stage zs)))) mu
+       (SSM.with_levels (ssm_stages_of off pm h zs) (ssm_levels_of h zs)).
+Proof. exact serial_expected_cost_ssm. Qed.
+(* the SSM instance built from the one-period pmf IS exactly represented when the lead-time demands fit the extended grid *)
+Theorem C15_serial_ssm_instance_exact : forall off pm h (zs : list zsim) xlo xext,
+  (xlo <= 0)%Z -> nonneg_list pm -> qsum pm == 1 ->
+  Forall (fun x : zsim => (snd x * off + length (conv_pow (snd x) pm) <= S xext)%nat) zs ->
+  SSM.exact_instance xlo xext (Gen.pmf_mean (qnat off) pm) (ssm_stages_of off pm h zs).
+Proof. exact ssm_instance_exact. Qed.
+
+(* ---- non-vacuity ----
+   A: 2 stages 2 -> 1, local levels 4, 3 (echelon 7, 3), lead times 2, 1, local holding 1, 3 (echelon 1, 2), p = 7 at the sink,
+      demand 0, 1, 3 w.p. 1/4, 1/2, 1/4: hypotheses hold; E[cost of period 3 and of period 2] over all 4^4 = 256 demand sequences
+      through the simulator model = 129/16 = topdown = ssm_cost on the grid -8..8; the warm-up period 0 has another expectation.
+   B: 3 stages 7 -> 3 -> 5, local levels 2, 3, 2, lead times 1, 2, 1, local holding 1, 2, 4, p = 9, demand 1, 2 w.p. 1/2 each
+      (off = 1), T = 5, t = 4. *)
+Definition exA_pm : list Q := [1#4; 1#2; 0; 1#4].
+Definition exA_h (n : N) : Q := if N.eqb n 1 then 3 else 1.
+Definition exA_p (n : N) : Q := if N.eqb n 1 then 7 else 0.
+Definition exA_zs : list zsim := [(2%N, 4%Z, 2%nat); (1%N, 3%Z, 1%nat)].
+Definition exA_order : list N := [1%N; 2%N].
+Definition exB_pm : list Q := [1#2; 1#2].
+Definition exB_h (n : N) : Q := if N.eqb n 7 then 1 else if N.eqb n 3 then 2 else 4.
+Definition exB_p (n : N) : Q := if N.eqb n 5 then 9 else 0.
+Definition exB_zs : list zsim := [(7%N, 2%Z, 1%nat); (3%N, 3%Z, 2%nat); (5%N, 2%Z, 1%nat)].
+Definition exB_order : list N := [3%N; 5%N; 7%N].
+
+Example C15_serial_expectation_nonvacuous :
+  (exA_zs <> [] /\ NoDup (map sidx (map zsim_stage exA_zs)) /\ Permutation exA_order (map sidx (map zsim_stage exA_zs)) /\
+   Forall (fun x : zsim => (0 <= snd (fst x))%Z) exA_zs /\ Forall (fun n => exA_p n == 0) (removelast (map sidx (map zsim_stage exA_zs))) /\
+   qsum exA_pm == 1 /\ nonneg_list exA_pm /\ (Z.of_nat (0 + length exA_pm) <= 10 ^ 100)%Z /\
+   (list_sum (map sslt (map zsim_stage exA_zs)) <= 3)%nat /\
+   SSM.exact_instance (-8) 8 (Gen.pmf_mean (qnat 0) exA_pm) (ssm_stages_of 0 exA_pm exA_h exA_zs) /\
+   Gen.pmf_mean (qnat 0) exA_pm == 5#4 /\
+   Forall (fun l => (-8 <= l <= SSM.xhi (-8) 16)%Z) (ssm_levels_of exA_h exA_zs)) /\
+  ssm_levels_of exA_h exA_zs = [3; 7]%Z /\ map SSM.sg_h (ssm_stages_of 0 exA_pm exA_h exA_zs) = [3 - 1; 1 - 0] /\
+  qobs (expect_list 4 0 exA_pm (serial_period_cost exA_h exA_p exA_order (map zsim_stage exA_zs) 3)) = (129, 16)%Z /\
+  qobs (hcost 0 exA_pm (7 + 3) (cst exA_h 0 (map zsim_stage exA_zs)) None) = (129, 16)%Z /\
+  qobs (SSM.topdown 7 (qsum (map SSM.sg_h (ssm_stages_of 0 exA_pm exA_h exA_zs)))
+          (List.rev (combine (ssm_stages_of 0 exA_pm exA_h exA_zs) (ssm_levels_of exA_h exA_zs))) None) = (129, 16)%Z /\
+  qobs (SSM.ssm_cost (-8) 16 8 7 (Gen.pmf_mean (qnat 0) exA_pm) (SSM.with_levels (ssm_stages_of 0 exA_pm exA_h exA_zs) (ssm_levels_of exA_h exA_zs))) = (129, 16)%Z /\
+  (* a warm-up period has a different expected cost *)
+  qobs (expect_list 4 0 exA_pm (serial_period_cost exA_h exA_p exA_order (map zsim_stage exA_zs) 0)) = (37, 4)%Z /\
+  (* B *)
+  (exB_zs <> [] /\ NoDup (map sidx (map zsim_stage exB_zs)) /\ Permutation exB_order (map sidx (map zsim_stage exB_zs)) /\
+   Forall (fun x : zsim => (0 <= snd (fst x))%Z) exB_zs /\ Forall (fun n => exB_p n == 0) (removelast (map sidx (map zsim_stage exB_zs))) /\
+   qsum exB_pm == 1 /\ (list_sum (map sslt (map zsim_stage exB_zs)) <= 4)%nat) /\
+  qobs (expect_list 5 1 exB_pm (serial_period_cost exB_h exB_p exB_order (map zsim_stage exB_zs) 4))
+  = qobs (SSM.topdown 9 (qsum (map SSM.sg_h (ssm_stages_of 1 exB_pm exB_h exB_zs)))
+            (List.rev (combine (ssm_stages_of 1 exB_pm exB_h exB_zs) (ssm_levels_of exB_h exB_zs))) None).
+Proof.
+  split.
+  { split; [discriminate|].
+    split; [cbn; repeat constructor; cbn; intros Y; repeat (destruct Y as [Y|Y]; [discriminate|]); exact Y|].
+    split; [cbn; apply perm_swap|].
+    split; [repeat constructor; cbn; discriminate|].
+    split; [cbn; repeat constructor|].
+    split; [reflexivity|].
+    split; [repeat constructor; discriminate|].
+    split; [vm_compute; discriminate|].
+    split; [cbn; lia|].
+    split.
+    - apply (ssm_instance_exact 0 exA_pm exA_h exA_zs (-8) 8); [lia|repeat constructor; discriminate|reflexivity|].
+      repeat constructor; vm_compute; lia.
+    - split; [reflexivity|]. vm_compute. repeat constructor; discriminate. }
+  split; [vm_compute; reflexivity|]. split; [reflexivity|].
+  split; [vm_compute; reflexivity|]. split; [vm_compute; reflexivity|]. split; [vm_compute; reflexivity|].
+  split; [vm_compute; reflexivity|]. split; [vm_compute; reflexivity|].
+  split.
+  { split; [discriminate|].
+    split; [cbn; repeat constructor; cbn; intros Y; repeat (destruct Y as [Y|Y]; [discriminate|]); exact Y|].
+    split; [cbn; apply (perm_trans (l' := [3%N; 7%N; 5%N])); [apply perm_skip, perm_swap|apply perm_swap]|].
+    split; [repeat constructor; cbn; discriminate|].
+    split; [cbn; repeat constructor|].
+    split; [reflexivity|cbn; lia]. }
+  vm_compute. reflexivity.
+Qed.
+
+Print Assumptions C15_serial_cost_identity.
+Print Assumptions C15_serial_period_cost_pathwise.
+Print Assumptions C15_serial_law_of_echelon_level.
+Print Assumptions C15_serial_expected_cost_nested.
+Print Assumptions C15_serial_expected_cost_topdown.
+Print Assumptions C15_serial_expected_cost_is_ssm_cost.
+Print Assumptions C15_serial_ssm_instance_exact.
+
+(* ==== integrated from ssim ==== *)
+(* ======================================================================================================================= *)
+(* C15 — the (s,S) stage: the simulator model follows the (s,S) inventory chain of stockpyl.ss, pathwise and in expectation
+   (Sim/SSim.v model; Sim/SSim_proofs.v, SSimChain_proofs.v, SSimExp_proofs.v, SSimMore_proofs.v, SSimLead_proofs.v proofs).  To be appended to Props/C15.v. *)
+From SV Require Import Base.Qx Sim.Model Sim.Single Sim.NVExpect Alg.SS Alg.SSErgo.
+From SV Require Import Sim.SSim Sim.SSim_proofs Sim.SSimChain_proofs Sim.SSimExp_proofs Sim.SSimMore_proofs Sim.SSimLead_proofs.
+
+(* 1. PATHWISE, rationals, any shipment lead time L, any initial level x0, every demand sequence (each demand d with 0 <= d and
+   d + (S - lo) <= BIG for some lo <= min(s, x0); BIG = 10^100 is the model's stand-in for "no order capacity"):
+   every end-of-period record of the simulator model is the record (IL', window', q) of the reference recursion
+     q = S - ip if ip <= s else 0,  ip = IL + sum(window) - d;   IL' = IL + hd(window ++ [q]) - d;   window' = tl(window ++ [q])
+   (inventory level, on-order quantity = sum of the window, order quantity, cost h IL'^+ + p IL'^-, and the cost with K added iff q > 0) *)
+Theorem C15_sS_stage_pathwise : forall (s S h p : Q) (L : nat) (x0 lo : Q), s < S -> lo <= s -> lo <= x0 ->
+  forall K dl, Forall (fun x : (N -> bool) * Q => 0 <= snd x /\ snd x + (S - lo) <= BIG) dl ->
+  Forall2 (rec_ok s S h p L x0 K) (run (NWS s S h p L x0) (mk_inputs dl)) (ref_run s S x0 (repeat 0 L) (map snd dl)).
+Proof. exact ss_stage_pathwise. Qed.
+
+(* 2. CHAIN. (a) the inventory position after ordering Y = IL + on-order follows the (s,S) rule, for every lead time:
+        Y' = S if Y - d <= s else Y - d *)
+Theorem C15_sS_position_rule : forall s S ds il w y, il + qsum w == y ->
+  Forall2 (fun r y' => rec_pos r == y') (ref_run s S il w ds) (ss_path s S y ds).
+Proof. exact ref_run_positions. Qed.
+(* (b) integers: the offset S - Y moves by off_step n (i -> i + d if i + d < n else 0, n = S - s), and an order is placed iff i + d >= n *)
+Theorem C15_sS_offsets : forall s S : Z, (s < S)%Z -> forall ds il w i, (i < Z.to_nat (S - s))%nat -> il + qsum w == inject_Z S - qnat i ->
+  Forall2 (pos_ok s S) (ref_run (inject_Z s) (inject_Z S) il w (map qnat ds)) (off_pairs (Z.to_nat (S - s)) i ds).
+Proof. exact ref_run_offsets. Qed.
+(* (c) the matrix [trans pmf n] of Alg/SS.v (the chain whose stationary cost s_s_cost_discrete reports, C13) is the law of off_step:
+        E_D[f(off_step n i D)] = (trans f)(i),  and entrywise trans n i j = P(off_step n i D = j) *)
+Theorem C15_sS_trans_is_law_of_off_step : forall pmf n (f : nat -> Q) i, (i < n)%nat ->
+  wsum (fun d => f (off_step n i d)) 0 pmf == Pf n (trans pmf n) f i.
+Proof. exact off_step_law. Qed.
+Theorem C15_sS_trans_entry : forall pmf n i j, (i < n)%nat -> (j < n)%nat ->
+  trans pmf n i j == wsum (fun d => if Nat.eqb (off_step n i d) j then 1 else 0) 0 pmf.
+Proof. exact trans_is_law. Qed.
+(* (d) the simulator model's period cost with K, for natural-number demands and s < x0 <= S: a function of the offset reached by the
+   first t demands and of the demand of period t.  Lead time 1 (the convention of ss.py: the order placed after the demand of period
+   t-1 is there before the demand of period t is served):  h (Y - d)^+ + p (d - Y)^+ + K [Y - d <= s],  Y = S - offset *)
+Theorem C15_sS_period_cost_lead_time_1 : forall (s S x0 : Z) (h p K : Q), (s < S)%Z -> (s < x0 <= S)%Z ->
+  forall dss t (ds : list nat), length dss = length ds -> (t < length ds)%nat ->
+  Forall (fun d => (Z.of_nat d + (S - s) <= 10 ^ 100)%Z) ds ->
+  ss_period_cost s S h p K 1 x0 dss t ds
+  == pcost h p K S (Z.to_nat (S - s)) (off_path (Z.to_nat (S - s)) (Z.to_nat (S - x0)) (firstn t ds)) (nth t ds 0%nat).
+Proof. exact ss_period_cost_L1. Qed.
+(* lead time 0: the order arrives before the demand is served, the cost is charged on the position AFTER ordering
+   (h Y'^+ + p Y'^- + K [order]) — not the cost function of ss.py *)
+Theorem C15_sS_period_cost_lead_time_0 : forall (s S x0 : Z) (h p K : Q), (s < S)%Z -> (s < x0 <= S)%Z ->
+  forall dss t (ds : list nat), length dss = length ds -> (t < length ds)%nat ->
+  Forall (fun d => (Z.of_nat d + (S - s) <= 10 ^ 100)%Z) ds ->
+  ss_period_cost s S h p K 0 x0 dss t ds
+  == pcost0 h p K S (Z.to_nat (S - s)) (off_path (Z.to_nat (S - s)) (Z.to_nat (S - x0)) (firstn t ds)) (nth t ds 0%nat).
+Proof. exact ss_period_cost_L0. Qed.
+
+(* 3. EXPECTATION (i.i.d. demand, P(D = i) = nth i pmf 0; expectation over the product distribution of all T demands).
+   (a) E[phi(offset after t demands)] = (P^t phi)(i0);  (b) E_D[period cost | offset i] = cstate i = G(S-i) + K P(D >= n-i), G = Gdisc h p pmf;
+   (c) E[simulated cost of period t, lead time 1] = ecost ... (unitv n (S - x0)) t  of Alg/SSErgo.v *)
+Theorem C15_sS_markov : forall pmf n, (1 <= n)%nat -> forall (phi : nat -> Q) t i0, (i0 < n)%nat ->
+  expect_list t 0 pmf (fun ds => phi (off_path n i0 ds)) == Piter n (trans pmf n) t phi i0.
+Proof. exact expect_off_path. Qed.
+Theorem C15_sS_one_period_expectation : forall pmf h p K (s S : Z), (s < S)%Z -> forall i, (i < Z.to_nat (S - s))%nat ->
+  wsum (fun d => pcost h p K S (Z.to_nat (S - s)) i d) 0 pmf == cstate pmf (Gdisc h p pmf) K (Z.to_nat (S - s)) S i.
+Proof. exact pcost_expectation. Qed.
+Theorem C15_sS_expected_period_cost : forall pmf, qsum pmf == 1 -> forall (s S x0 : Z) (h p K : Q), (s < S)%Z -> (s < x0 <= S)%Z ->
+  (Z.of_nat (length pmf) + (S - s) <= 10 ^ 100)%Z -> forall dss t T, length dss = T -> (t < T)%nat ->
+  expect_list T 0 pmf (ss_period_cost s S h p K 1 x0 dss t)
+  == ecost pmf (Gdisc h p pmf) K (Z.to_nat (S - s)) S (unitv (Z.to_nat (S - s)) (Z.to_nat (S - x0))) t.
+Proof. exact expected_ss_period_cost. Qed.
+
+(* MAIN: the Cesaro average over T periods of the EXPECTED cost (with K per order placed) of the simulated (s,S) stage with lead time 1
+   is within ergB / T of the cost reported by s_s_cost_discrete — for every T >= 1, every start x0 in (s, S], every finite pmf with p0 < 1 *)
+Theorem C15_sS_stage_long_run_expected_cost : forall pmf, (forall l, 0 <= pf pmf l) -> qsum pmf == 1 -> pf pmf 0 < 1 ->
+  forall (s S x0 : Z) (h p K : Q), (s < S)%Z -> (s < x0 <= S)%Z -> (Z.of_nat (length pmf) + (S - s) <= 10 ^ 100)%Z ->
+  forall dss T, length dss = T -> (1 <= T)%nat ->
+  Qabs (sim_avg_cost s S h p K 1 x0 dss pmf T - gcost pmf (Gdisc h p pmf) K s S) <= ergB pmf (Gdisc h p pmf) K s S / qnat T.
+Proof. exact sS_stage_long_run_expected_cost. Qed.
+Theorem C15_sS_stage_long_run_entry : forall pmf, (forall l, 0 <= pf pmf l) -> qsum pmf == 1 -> pf pmf 0 < 1 ->
+  forall (s S x0 : Z) (h p K : Q), (s < S)%Z -> (s < x0 <= S)%Z -> (Z.of_nat (length pmf) + (S - s) <= 10 ^ 100)%Z ->
+  forall dss T q, s_s_cost_discrete h p K pmf s S = Ok q -> length dss = T -> (1 <= T)%nat ->
+  Qabs (sim_avg_cost s S h p K 1 x0 dss pmf T - q) <= ergB pmf (Gdisc h p pmf) K s S / qnat T.
+Proof. exact sS_stage_long_run_entry. Qed.
+
+(* a start at or below the reorder point, x0 <= s (not a state of the chain): period 0 costs h (x0-d)^+ + p (d-x0)^+ + K (an order is
+   certain), from period 1 on the chain runs from offset 0; bound (ergB + |G(x0) + K - g|) / T *)
+Theorem C15_sS_expected_period_cost_low_start : forall pmf, qsum pmf == 1 -> forall (s S x0 : Z) (h p K : Q), (s < S)%Z -> (x0 <= s)%Z ->
+  (Z.of_nat (length pmf) + (S - x0) <= 10 ^ 100)%Z -> forall dss T, length dss = T ->
+  ((0 < T)%nat -> expect_list T 0 pmf (ss_period_cost s S h p K 1 x0 dss 0) == Gdisc h p pmf x0 + K) /\
+  (forall t, (Datatypes.S t < T)%nat -> expect_list T 0 pmf (ss_period_cost s S h p K 1 x0 dss (Datatypes.S t))
+                           == ecost pmf (Gdisc h p pmf) K (Z.to_nat (S - s)) S (unitv (Z.to_nat (S - s)) 0) t).
+Proof. exact expected_ss_period_cost_low. Qed.
+Theorem C15_sS_stage_long_run_low_start : forall pmf, (forall l, 0 <= pf pmf l) -> qsum pmf == 1 -> pf pmf 0 < 1 ->
+  forall (s S x0 : Z) (h p K : Q), (s < S)%Z -> (x0 <= s)%Z -> (Z.of_nat (length pmf) + (S - x0) <= 10 ^ 100)%Z ->
+  forall dss T, length dss = T -> (1 <= T)%nat ->
+  Qabs (sim_avg_cost s S h p K 1 x0 dss pmf T - gcost pmf (Gdisc h p pmf) K s S)
+  <= (ergB pmf (Gdisc h p pmf) K s S + Qabs (Gdisc h p pmf x0 + K - gcost pmf (Gdisc h p pmf) K s S)) / qnat T.
+Proof. exact sS_stage_long_run_low. Qed.
+
+(* lead time 0: the expected simulated cost of period t is the chain's cost of period t+1 in the order-placement accounting with the
+   degenerate one-period cost G0(y) = h y^+ + p y^-;  the long-run average is gcost with G0, NOT the value of s_s_cost_discrete *)
+Theorem C15_sS_expected_period_cost_lead_time_0 : forall pmf, qsum pmf == 1 -> forall (s S x0 : Z) (h p K : Q), (s < S)%Z -> (s < x0 <= S)%Z ->
+  (Z.of_nat (length pmf) + (S - s) <= 10 ^ 100)%Z -> forall dss t T o0, length dss = T -> (t < T)%nat ->
+  expect_list T 0 pmf (ss_period_cost s S h p K 0 x0 dss t)
+  == ecost_ord pmf (G0 h p) K (Z.to_nat (S - s)) S o0 (unitv (Z.to_nat (S - s)) (Z.to_nat (S - x0))) (Datatypes.S t).
+Proof. exact expected_ss_period_cost_L0. Qed.
+Theorem C15_sS_stage_long_run_lead_time_0 : forall pmf, (forall l, 0 <= pf pmf l) -> qsum pmf == 1 -> pf pmf 0 < 1 ->
+  forall (s S x0 : Z) (h p K : Q), (s < S)%Z -> (s < x0 <= S)%Z -> (Z.of_nat (length pmf) + (S - s) <= 10 ^ 100)%Z ->
+  forall dss T, length dss = T -> (1 <= T)%nat ->
+  Qabs (sim_avg_cost s S h p K 0 x0 dss pmf T - gcost pmf (G0 h p) K s S)
+  <= (ergB pmf (G0 h p) K s S + Qabs K + Qabs (G0 h p x0 - gcost pmf (G0 h p) K s S)) / qnat T.
+Proof. exact sS_stage_long_run_L0. Qed.
+
+(* non-vacuity 1 (pathwise): (s,S) = (2,8), h = 1, p = 4, K = 5, x0 = 6, demands 3 0 2 5 1 1 7 0 2 4: lead time 1, 0 and 3 (x0 = -1 <= s):
+   the hypotheses hold, orders are placed in some periods and not in others, stockouts occur with L = 3 *)
+Definition C15_ss_nodis : N -> bool := fun _ => false.
+Definition C15_ss_ds : list Q := [3; 0; 2; 5; 1; 1; 7; 0; 2; 4].
+Definition C15_ss_dl := map (fun d => (C15_ss_nodis, d)) C15_ss_ds.
+Example C15_sS_pathwise_nonvacuous :
+  Forall (fun x : (N -> bool) * Q => 0 <= snd x /\ snd x + (8 - (-1)) <= BIG) C15_ss_dl /\
+  (let obs := fun NW => map (fun e => (qobs (gq e (fIL, 1%N, Ext)), qobs (gq e (fOQ, 1%N, Ext)), qobs (sim_cost_with_K NW 5 e))) (run NW (mk_inputs C15_ss_dl)) in
+   let robs := fun x0 w => map (fun r => let '(il, w, q) := r in (qobs il, qobs q, qobs (1 * qmax 0 il + 4 * qmax 0 (- il) + (if qltb 0 q then 5 else 0)))) (ref_run 2 8 x0 w C15_ss_ds) in
+   obs (NWS 2 8 1 4 1 6) = robs 6 [0] /\ obs (NWS 2 8 1 4 0 6) = robs 6 [] /\ obs (NWS 2 8 1 4 3 (-1)) = robs (-1) [0; 0; 0] /\
+   map fst (obs (NWS 2 8 1 4 1 6)) = [(3, 1, (0, 1)); (3, 1, (0, 1)); (1, 1, (7, 1)); (3, 1, (0, 1)); (2, 1, (6, 1)); (7, 1, (0, 1)); (0, 1, (8, 1)); (8, 1, (0, 1)); (6, 1, (0, 1)); (2, 1, (6, 1))]%Z /\
+   map (fun r => qobs (rec_pos r)) (ref_run 2 8 6 [0] C15_ss_ds) = map qobs (ss_path 2 8 6 C15_ss_ds) /\
+   map (fun r => qobs (rec_pos r)) (ref_run 2 8 (-1) [0; 0; 0] C15_ss_ds) = map qobs (ss_path 2 8 (-1) C15_ss_ds) /\
+   map (fun y => Z.to_nat (8 - fst (qobs y))) (ss_path 2 8 6 C15_ss_ds) = map (fun pr => off_step 6 (fst pr) (snd pr)) (off_pairs 6 2 [3; 0; 2; 5; 1; 1; 7; 0; 2; 4]%nat)).
+Proof. split; [repeat constructor; vm_compute; discriminate|]. vm_compute. repeat split; reflexivity. Qed.
+
+(* LEAD-TIME IDENTITY, any lead time L (= length of the window), every demand sequence: the inventory level at the end of period t+L is
+   the position after the ordering of period t minus the demand of the periods t+1..t+L; during the first L periods IL(t) = x0 - d(0..t).
+   (By C15_sS_stage_pathwise the records of the reference recursion ARE the simulator model's inventory level and on-order quantity.)
+   With (b) above: for L >= 1 the chain lives on the inventory POSITION and the holding/stockout cost is evaluated L periods later. *)
+Theorem C15_sS_lead_time_identity : forall s S il w ds t d0, (t + length w < length ds)%nat ->
+  fst (fst (nth (t + length w) (ref_run s S il w ds) d0))
+  == rec_pos (nth t (ref_run s S il w ds) d0) - qsum (firstn (length w) (skipn (Datatypes.S t) ds)).
+Proof. exact ref_run_lead_time. Qed.
+Theorem C15_sS_warm_up : forall s S x0 L ds t d0, (t < length ds)%nat -> (t < L)%nat ->
+  fst (fst (nth t (ref_run s S x0 (repeat 0 L) ds) d0)) == x0 - qsum (firstn (Datatypes.S t) ds).
+Proof. exact ref_run_warm_up. Qed.
+Example C15_sS_lead_time_nonvacuous :
+  let run := ref_run 2 8 (-1) [0; 0; 0] C15_ss_ds in
+  map (fun t => qobs (fst (fst (nth (t + 3) run (0, [], 0))))) (seq 0 7) = [(1, 1); (0, 1); (-1, 1); (-1, 1); (-1, 1); (-3, 1); (2, 1)]%Z /\
+  map (fun t => qobs (rec_pos (nth t run (0, [], 0)) - qsum (firstn 3 (skipn (Datatypes.S t) C15_ss_ds)))) (seq 0 7) = [(1, 1); (0, 1); (-1, 1); (-1, 1); (-1, 1); (-3, 1); (2, 1)]%Z /\
+  map (fun t => qobs (fst (fst (nth t run (0, [], 0))))) (seq 0 3) = [(-4, 1); (-4, 1); (-6, 1)]%Z.
+Proof. vm_compute. repeat split; reflexivity. Qed.
+
+(* non-vacuity 2 (expectation): pmf (1/4, 1/2, 1/4) on 0,1,2; (s,S) = (1,4), h = 1, p = 4, K = 5, T = 4 (81 demand sequences through the
+   simulator model): from x0 = 3 the expected period costs are 13/4, 63/16, 115/32, 115/32 = ecost; s_s_cost_discrete = 29/8, ergB = 3,
+   average 115/32, |115/32 - 29/8| = 1/32 <= 3/4.  From x0 = -1 <= s: 13 = G(-1) + 5, then 3, 57/16, 119/32.  Lead time 0: 4, 43/8, 289/64, 1167/256. *)
+Definition C15_ss_pm : list Q := [1 # 4; 1 # 2; 1 # 4].
+Example C15_sS_expectation_nonvacuous :
+  let dss := [C15_ss_nodis; C15_ss_nodis; C15_ss_nodis; C15_ss_nodis] in let G := Gdisc 1 4 C15_ss_pm in
+  forallb (qleb 0) C15_ss_pm = true /\ qsum C15_ss_pm == 1 /\ pf C15_ss_pm 0 < 1 /\ (Z.of_nat (length C15_ss_pm) + (4 - -1) <= 10 ^ 100)%Z /\
+  map (fun t => qobs (expect_list 4 0 C15_ss_pm (ss_period_cost 1 4 1 4 5 1 3 dss t))) [0; 1; 2; 3]%nat = [(13, 4); (63, 16); (115, 32); (115, 32)]%Z /\
+  map (fun t => qobs (ecost C15_ss_pm G 5 3 4 (unitv 3 1) t)) [0; 1; 2; 3]%nat = [(13, 4); (63, 16); (115, 32); (115, 32)]%Z /\
+  s_s_cost_discrete 1 4 5 C15_ss_pm 1 4 = Ok (29 # 8) /\ qobs (ergB C15_ss_pm G 5 1 4) = (3, 1)%Z /\
+  qobs (sim_avg_cost 1 4 1 4 5 1 3 dss C15_ss_pm 4) = (115, 32)%Z /\
+  map (fun t => qobs (expect_list 4 0 C15_ss_pm (ss_period_cost 1 4 1 4 5 1 (-1)%Z dss t))) [0; 1; 2; 3]%nat = [(13, 1); (3, 1); (57, 16); (119, 32)]%Z /\
+  qobs (G (-1)%Z + 5) = (13, 1)%Z /\ map (fun t => qobs (ecost C15_ss_pm G 5 3 4 (unitv 3 0) t)) [0; 1; 2]%nat = [(3, 1); (57, 16); (119, 32)]%Z /\
+  map (fun t => qobs (expect_list 4 0 C15_ss_pm (ss_period_cost 1 4 1 4 5 0 3 dss t))) [0; 1; 2; 3]%nat = [(4, 1); (43, 8); (289, 64); (1167, 256)]%Z /\
+  map (fun t => qobs (ecost_ord C15_ss_pm (G0 1 4) 5 3 4 0 (unitv 3 1) t)) [1; 2; 3; 4]%nat = [(4, 1); (43, 8); (289, 64); (1167, 256)]%Z.
+Proof. vm_compute. repeat split; try reflexivity; discriminate. Qed.
+
+Print Assumptions C15_sS_stage_pathwise.
+Print Assumptions C15_sS_position_rule.
+Print Assumptions C15_sS_offsets.
+Print Assumptions C15_sS_trans_is_law_of_off_step.
+Print Assumptions C15_sS_trans_entry.
+Print Assumptions C15_sS_period_cost_lead_time_1.
+Print Assumptions C15_sS_period_cost_lead_time_0.
+Print Assumptions C15_sS_markov.
+Print Assumptions C15_sS_one_period_expectation.
+Print Assumptions C15_sS_expected_period_cost.
+Print Assumptions C15_sS_stage_long_run_expected_cost.
+Print Assumptions C15_sS_stage_long_run_entry.
+Print Assumptions C15_sS_expected_period_cost_low_start.
+Print Assumptions C15_sS_stage_long_run_low_start.
+Print Assumptions C15_sS_expected_period_cost_lead_time_0.
+Print Assumptions C15_sS_stage_long_run_lead_time_0.
+Print Assumptions C15_sS_lead_time_identity.
+Print Assumptions C15_sS_warm_up.
